@@ -47,5 +47,8 @@ for sid in sorted(os.listdir(ROOT)):
     finally:
         subprocess.call(['git', '-C', '/repo', 'worktree', 'remove', '--force', wt], stdout=subprocess.DEVNULL, stderr=subprocess.DEVNULL)
         subprocess.call(['rm', '-rf', wt])
-if not only:
-    json.dump(out, open(os.path.join(ROOT, 'RECHECK.json'), 'w'), indent=1)
+prev = {}
+if only and os.path.exists(os.path.join(ROOT, 'RECHECK.json')):
+    prev = json.load(open(os.path.join(ROOT, 'RECHECK.json')))
+prev.update(out)
+json.dump(dict(sorted(prev.items())), open(os.path.join(ROOT, 'RECHECK.json'), 'w'), indent=1)
